@@ -44,7 +44,7 @@ def comp_st(draw):
     elif k == 2:
         c = {"kind": "deny", "response": draw(st.sampled_from(srvsim_DENY))}
     elif k == 3:
-        c = {"kind": "raise", "exc": draw(st.sampled_from(["ValueError", "RuntimeError", "Custom", "KeyError", "CancelledError"]))}
+        c = {"kind": "raise", "exc": draw(st.sampled_from(["ValueError", "RuntimeError", "Custom", "KeyError", "CancelledError", "TimeoutError"]))}
     elif k == 4:
         c = draw(st.sampled_from([{"kind": "deny-none"}, {"kind": "allow-once", "response": "44 Slow down\r\n"}]))
     elif k <= 6:
@@ -481,7 +481,9 @@ def overlap_case_st(draw):
     for c_ in conns:
         if ";" in c_["path"]:
             c_["titan"] = False  # where a Titan path ends when it contains ';' is left to the implementation
-    return {"chain": chain, "conns": conns, "schedule": draw(st.lists(st.integers(0, 59), max_size=14))}
+    return {"chain": chain, "conns": conns, "schedule": draw(st.lists(st.integers(0, 59), max_size=14)),
+            # how long the slow components take before they answer (virtual seconds)
+            "think": draw(st.sampled_from([0, 0, 6.0, 20.0]))}
 
 
 def run_overlap(case: dict):
@@ -527,6 +529,8 @@ def run_overlap(case: dict):
             if not fed[i]:
                 feed(i)
                 await vloop.settle(2)
+        if case.get("think"):
+            await asyncio.sleep(case["think"])
         # release one consultation at a time so that resumed requests interleave
         while sim.pending_gates():
             sim.release_one()
